@@ -116,6 +116,8 @@ static int depack_pp21_pp30(HIO_HANDLE *in, FILE *out, int is_30)
 
 	/* read "reference Table" */
 	tab = (uint8 *)malloc(tabsize);
+	if (tab == NULL)
+		return -1;
 	if (hio_read(tab, tabsize, 1, in) != 1) {
 		free(tab);
 		return -1;
